@@ -111,7 +111,7 @@ func main() {
 		if fs, _, _ := judge(f.Case); len(fs) == 0 {
 			hkit.EngineError("failure %s did not reproduce in the parent process", sig)
 		}
-		hkit.Report(propID, sig, map[string]any{"harness": "c19", "sig": sig, "case": f.Case, "occurrences": f.Count},
+		hkit.Report(propID, sig, map[string]any{"harness": "c19", "sig": sig, "case": f.Case},
 			fmt.Sprintf("%d inputs; minimal: %s | %s", f.Count, f.Case.Desc, f.Human))
 	}
 	evals, nontriv, gen := 0, 0, 0
